@@ -23,6 +23,7 @@ def dispatch (line : String) : String :=
   | "C12" :: rest => GN.Driver.C12.handle rest
   | "C13" :: rest => GN.Driver.Url.handleC13 rest
   | "C14" :: rest => GN.Driver.Url.handleC14 rest
+  | "C17" :: rest => GN.Driver.C09.handle17 rest
   | "C16" :: rest => GN.Driver.C16.handle rest
   | "C18" :: rest => GN.Driver.C18.handle rest
   | "C19" :: rest => GN.Driver.C19.handle rest
